@@ -56,6 +56,9 @@ func (c08) Gen(r *Rng, tier string, run int) *Trace {
 	if r.Bool(0.3) {
 		g.emit(Op{Obj: s0, M: "SetFIFO", Args: []Val{vBool(true)}}, true)
 	}
+	if r.Bool(0.2) {
+		g.emit(Op{Obj: s0, M: "SetNoNesting", Args: []Val{vBool(true)}}, true)
+	}
 	if r.Bool(0.3) {
 		// the lock paths run in the sequential configuration too (a lock left held or asked for twice is detected)
 		g.emit(Op{Obj: s0, M: "SetMutex"}, true)
